@@ -112,6 +112,8 @@ pub struct FnInfo {
     pub rust_params: Vec<String>,
     /// indices (into `rust_params`) of the `&mut Struct` parameters: their final values are part of the result
     pub inout: Vec<usize>,
+    /// Rust names of the fields of `&mut self` the function modifies (their final values are part of the result, in this order)
+    pub self_mutated: Vec<String>,
 }
 
 /// a `What::MutBorrow` method
